@@ -23,7 +23,7 @@ use std::collections::{BTreeMap, HashMap};
 use std::sync::{Arc, Mutex};
 use std::time::Duration;
 
-use crate::cfg::{CODE_SYNCS_BEFORE_DROP, CODE_TICK_SYNCS, CODE_WAL_FORMAT};
+use crate::cfg::{CODE_RESTART_REUSES_SEQ, CODE_SYNCS_BEFORE_DROP, CODE_TICK_SYNCS, CODE_WAL_FORMAT};
 
 #[derive(Clone, Debug, PartialEq)]
 pub enum Outcome {
@@ -48,6 +48,8 @@ impl Outcome {
 struct Inner {
     files: BTreeMap<String, (Vec<u8>, usize)>, // data, synced length
     faults: HashMap<usize, Outcome>,
+    /// from this (global) call index on every call fails: the machine is dying
+    dead_from: Option<usize>,
     trace: Vec<String>,
     /// crash image after every call (index 0 = before the first call)
     images: Vec<Vec<(String, Vec<u8>)>>,
@@ -56,6 +58,9 @@ struct Inner {
 impl Inner {
     fn next(&mut self) -> Outcome {
         let i = self.trace.len();
+        if self.dead_from.map(|d| i >= d).unwrap_or(false) {
+            return Outcome::Fail;
+        }
         self.faults.get(&i).cloned().unwrap_or(Outcome::Ok)
     }
     fn record(&mut self, call: String) {
@@ -79,6 +84,24 @@ impl FaultStore {
     }
     pub fn calls(&self) -> usize {
         self.inner.lock().unwrap().trace.len()
+    }
+    /// start of an incarnation: its faults / death point are given relative to its first call
+    fn arm(&self, faults: &[(usize, Outcome)], dead: Option<usize>) -> usize {
+        let mut s = self.inner.lock().unwrap();
+        let base = s.trace.len();
+        s.faults = faults.iter().map(|(i, o)| (base + i, o.clone())).collect();
+        s.dead_from = dead.map(|d| base + d);
+        base
+    }
+    /// the machine crashes: every file keeps exactly what a successful fsync covered
+    fn crash(&self) {
+        let mut s = self.inner.lock().unwrap();
+        for (_, (d, syn)) in s.files.iter_mut() {
+            d.truncate(*syn);
+            *syn = d.len();
+        }
+        s.dead_from = None;
+        s.record("crash".to_string());
     }
 }
 
@@ -154,10 +177,11 @@ impl WalStore for FaultStore {
         let o = s.next();
         let seq = parse_seq(name).unwrap_or(u64::MAX);
         let ok = o == Outcome::Ok;
+        let existed = s.files.contains_key(name);
         if ok {
-            s.files.insert(name.to_string(), (Vec::new(), 0));
+            s.files.insert(name.to_string(), (Vec::new(), 0)); // create truncates
         }
-        s.record(format!("c{}:{}", seq, if ok { "ok" } else { "err" }));
+        s.record(format!("c{}:{}{}", seq, if ok { "ok" } else { "err" }, if existed { ":over" } else { "" }));
         match o {
             Outcome::Ok => Ok(FaultWriter { name: name.to_string(), seq, inner: Arc::clone(&self.inner), size: 0 }),
             Outcome::Full => Err(WalError::DiskFull),
@@ -224,22 +248,42 @@ impl Msg {
     }
 }
 
+#[derive(Clone, Copy, PartialEq)]
+enum Ending {
+    Crash, // machine crash, then a new actor over what is left
+    Clean, // shutdown(), then a new actor over the same store
+    End,   // last incarnation
+}
+
+/// one actor / rotator lifetime over the shared store
+struct Inc {
+    faults: Vec<(usize, Outcome)>, // call indices relative to the incarnation's first call
+    dead: Option<usize>,           // relative: every call from here on fails
+    groups: Vec<Vec<Msg>>,
+    ending: Ending,
+}
+
 struct Workload {
     max_size: usize,
     max_entries: usize,
-    faults: Vec<(usize, Outcome)>,
-    groups: Vec<Vec<Msg>>,
+    incs: Vec<Inc>,
 }
 
 impl Workload {
+    fn single(max_size: usize, max_entries: usize, faults: Vec<(usize, Outcome)>, groups: Vec<Vec<Msg>>) -> Workload {
+        Workload { max_size, max_entries, incs: vec![Inc { faults, dead: None, groups, ending: Ending::End }] }
+    }
+    fn msgs(&self) -> impl Iterator<Item = &Msg> {
+        self.incs.iter().flat_map(|i| i.groups.iter().flatten())
+    }
     fn writes(&self) -> Vec<&W> {
-        self.groups.iter().flatten().filter_map(|m| m.write()).collect()
+        self.msgs().filter_map(|m| m.write()).collect()
     }
     fn durable(&self) -> Vec<&W> {
-        self.groups.iter().flatten().filter_map(|m| if let Msg::Durable(w) = m { Some(w) } else { None }).collect()
+        self.msgs().filter_map(|m| if let Msg::Durable(w) = m { Some(w) } else { None }).collect()
     }
     fn max_truncate(&self) -> Option<u64> {
-        self.groups.iter().flatten().filter_map(|m| if let Msg::Truncate(t) = m { Some(*t) } else { None }).max()
+        self.msgs().filter_map(|m| if let Msg::Truncate(t) = m { Some(*t) } else { None }).max()
     }
 }
 
@@ -267,70 +311,83 @@ struct RunResult {
     trace: Vec<String>,
     images: Vec<Vec<(String, Vec<u8>)>>,
     files: Vec<(String, Vec<u8>)>, // final full contents
+    bases: Vec<usize>,             // global index of the first call of every incarnation
 }
 
 fn run_real(wl: &Workload) -> RunResult {
-    let store = FaultStore::new(wl.faults.iter().cloned().collect());
-    let rt = tokio::runtime::Builder::new_current_thread().enable_time().start_paused(true).build().unwrap();
-    let st2 = store.clone();
-    let groups = wl.groups.clone();
-    let cfg = WalConfig {
-        enabled: true,
-        wal_dir: std::path::PathBuf::from("/nonexistent"),
-        fsync_policy: FsyncPolicy::Always,
-        max_file_size: wl.max_size,
-        group_commit_max_entries: wl.max_entries,
-        group_commit_max_wait: Duration::from_micros(200),
-        truncation_check_interval: Duration::from_secs(3600),
-    };
-    let acks = rt.block_on(async move {
-        let (handle, task) = spawn_wal_actor(st2.clone(), cfg).expect("spawn actor");
-        let mut acks = Vec::new();
-        for g in groups {
-            // a burst of concurrent callers: tasks run in spawn order, so the messages reach the
-            // mailbox in this order, all before the actor handles the first of them
-            let mut js = Vec::new();
-            for m in g {
-                let h = handle.clone();
-                let st3 = st2.clone();
-                js.push(tokio::spawn(async move {
-                    match m {
-                        Msg::Durable(w) => {
-                            let r = h.write_durable(w.delta.clone(), w.ts).await;
-                            Some((w.id, ack_name(&r), st3.calls()))
+    let store = FaultStore::new(HashMap::new());
+    let mut acks = Vec::new();
+    let mut bases = Vec::new();
+    for inc in &wl.incs {
+        bases.push(store.arm(&inc.faults, inc.dead));
+        let rt = tokio::runtime::Builder::new_current_thread().enable_time().start_paused(true).build().unwrap();
+        let st2 = store.clone();
+        let groups = inc.groups.clone();
+        let cfg = WalConfig {
+            enabled: true,
+            wal_dir: std::path::PathBuf::from("/nonexistent"),
+            fsync_policy: FsyncPolicy::Always,
+            max_file_size: wl.max_size,
+            group_commit_max_entries: wl.max_entries,
+            group_commit_max_wait: Duration::from_micros(200),
+            truncation_check_interval: Duration::from_secs(3600),
+        };
+        let mut got = rt.block_on(async move {
+            // a NEW actor (and rotator: WalRotator::new scans the store) over the shared store
+            let (handle, task) = spawn_wal_actor(st2.clone(), cfg).expect("spawn actor");
+            let mut acks = Vec::new();
+            for g in groups {
+                // a burst of concurrent callers: tasks run in spawn order, so the messages reach the
+                // mailbox in this order, all before the actor handles the first of them
+                let mut js = Vec::new();
+                for m in g {
+                    let h = handle.clone();
+                    let st3 = st2.clone();
+                    js.push(tokio::spawn(async move {
+                        match m {
+                            Msg::Durable(w) => {
+                                let r = h.write_durable(w.delta.clone(), w.ts).await;
+                                Some((w.id, ack_name(&r), st3.calls()))
+                            }
+                            Msg::Forget(w) => {
+                                h.write_fire_and_forget(w.delta.clone(), w.ts);
+                                None
+                            }
+                            Msg::Tick => {
+                                h.sync_tick();
+                                None
+                            }
+                            Msg::Truncate(t) => {
+                                h.truncate(t);
+                                None
+                            }
                         }
-                        Msg::Forget(w) => {
-                            h.write_fire_and_forget(w.delta.clone(), w.ts);
-                            None
-                        }
-                        Msg::Tick => {
-                            h.sync_tick();
-                            None
-                        }
-                        Msg::Truncate(t) => {
-                            h.truncate(t);
-                            None
-                        }
-                    }
-                }));
-            }
-            for j in js {
-                if let Some(a) = j.await.expect("caller task") {
-                    acks.push(a);
+                    }));
                 }
+                for j in js {
+                    if let Some(a) = j.await.expect("caller task") {
+                        acks.push(a);
+                    }
+                }
+                // callers that wait for nothing (tick, truncate, fire-and-forget) return at once: let the
+                // actor finish this burst (incl. its group-commit wait) before the next one is sent.
+                // The clock is paused, so this costs no real time.
+                tokio::time::sleep(Duration::from_millis(10)).await;
             }
-            // callers that wait for nothing (tick, truncate, fire-and-forget) return at once: let the
-            // actor finish this burst (incl. its group-commit wait) before the next one is sent.
-            // The clock is paused, so this costs no real time.
-            tokio::time::sleep(Duration::from_millis(10)).await;
+            // every burst ends flushed, so the final flush of shutdown() issues no I/O; it only
+            // stops the actor (also before a crash)
+            handle.shutdown().await;
+            drop(handle); // the actor only stops when every sender is gone
+            let _ = task.await;
+            acks
+        });
+        acks.append(&mut got);
+        if inc.ending == Ending::Crash {
+            store.crash();
         }
-        handle.shutdown().await;
-        drop(handle); // the actor only stops when every sender is gone
-        let _ = task.await;
-        acks
-    });
+    }
     let s = store.inner.lock().unwrap();
-    RunResult { acks, trace: s.trace.clone(), images: s.images.clone(), files: s.files.iter().map(|(n, (d, _))| (n.clone(), d.clone())).collect() }
+    RunResult { acks, trace: s.trace.clone(), images: s.images.clone(), files: s.files.iter().map(|(n, (d, _))| (n.clone(), d.clone())).collect(), bases }
 }
 
 /// recovery of a crash image through the real rotator
@@ -347,30 +404,37 @@ fn recover_ids(img: &[(String, Vec<u8>)], by_data: &HashMap<Vec<u8>, u64>, max: 
     es.iter().map(|e| by_data.get(&e.data).map(|i| i.to_string()).unwrap_or("?".into())).collect()
 }
 
-fn op_line(wl: &Workload) -> String {
-    let mut s = format!("G {} {} {} {} {} F {}", CODE_SYNCS_BEFORE_DROP as u8, CODE_TICK_SYNCS as u8, CODE_WAL_FORMAT, wl.max_size, wl.max_entries, wl.faults.len());
-    for (i, o) in &wl.faults {
-        s.push_str(&format!(" {} {}", i, o.show()));
-    }
-    s.push_str(&format!(" W {}", wl.groups.len()));
-    for g in &wl.groups {
-        s.push_str(&format!(" {}", g.len()));
-        for m in g {
-            match m {
-                Msg::Durable(w) => s.push_str(&format!(" w {} {} {}", w.id, w.ts, hex(&w.data))),
-                Msg::Forget(w) => s.push_str(&format!(" f {} {} {}", w.id, w.ts, hex(&w.data))),
-                Msg::Tick => s.push_str(" t"),
-                Msg::Truncate(t) => s.push_str(&format!(" x {}", t)),
+fn op_line(wl: &Workload, bases: &[usize]) -> String {
+    let mut s = format!("G {} {} {} {} {} {} K {}", CODE_SYNCS_BEFORE_DROP as u8, CODE_TICK_SYNCS as u8, CODE_WAL_FORMAT, CODE_RESTART_REUSES_SEQ as u8, wl.max_size, wl.max_entries, wl.incs.len());
+    for (k, inc) in wl.incs.iter().enumerate() {
+        let base = bases.get(k).cloned().unwrap_or(0);
+        s.push_str(&format!(" F {}", inc.faults.len()));
+        for (i, o) in &inc.faults {
+            s.push_str(&format!(" {} {}", base + i, o.show()));
+        }
+        s.push_str(&format!(" D {}", inc.dead.map(|d| (base + d).to_string()).unwrap_or("-".into())));
+        s.push_str(&format!(" W {}", inc.groups.len()));
+        for g in &inc.groups {
+            s.push_str(&format!(" {}", g.len()));
+            for m in g {
+                match m {
+                    Msg::Durable(w) => s.push_str(&format!(" w {} {} {}", w.id, w.ts, hex(&w.data))),
+                    Msg::Forget(w) => s.push_str(&format!(" f {} {} {}", w.id, w.ts, hex(&w.data))),
+                    Msg::Tick => s.push_str(" t"),
+                    Msg::Truncate(t) => s.push_str(&format!(" x {}", t)),
+                }
             }
         }
+        s.push_str(match inc.ending {
+            Ending::Crash => " E c",
+            Ending::Clean => " E s",
+            Ending::End => " E e",
+        });
     }
     s
 }
 
 fn run_workload(wl: &Workload, out: &mut Out, source: &str) {
-    if std::env::var("C09_DEBUG").is_ok() {
-        eprintln!("{}", op_line(wl).split(" W ").next().unwrap_or("").to_string() + " :: " + &wl.groups.iter().map(|g| g.iter().map(|m| m.kind()).collect::<Vec<_>>().join(",")).collect::<Vec<_>>().join(" | "));
-    }
     let r = run_real(wl);
     let by_data: HashMap<Vec<u8>, u64> = wl.writes().iter().map(|w| (w.data.clone(), w.id)).collect();
     let mut acks = r.acks.clone();
@@ -378,12 +442,19 @@ fn run_workload(wl: &Workload, out: &mut Out, source: &str) {
     let acks_s: Vec<String> = acks.iter().map(|(i, a, _)| format!("{}={}", i, a)).collect();
     let rec: Vec<Vec<String>> = r.images.iter().map(|img| recover_ids(img, &by_data, wl.max_size)).collect();
     let crash_s: Vec<String> = rec.iter().map(|v| v.join(" ")).collect();
-    out.op(op_line(wl), format!("acks {} | trace {} | crash {}", acks_s.join(" "), r.trace.join(" "), crash_s.join(" ; ")));
+    out.op(op_line(wl, &r.bases), format!("acks {} | trace {} | crash {}", acks_s.join(" "), r.trace.join(" "), crash_s.join(" ; ")));
 
     // distribution
     let nw: usize = wl.writes().len();
     // message kind x position in its burst, and whether it sits between a failed append and the flush
-    for g in &wl.groups {
+    out.count(&format!("incarnations:{}", wl.incs.len()));
+    for inc in &wl.incs {
+        out.count(match inc.ending { Ending::Crash => "incarnation-end:crash", Ending::Clean => "incarnation-end:clean-shutdown", Ending::End => "incarnation-end:last" });
+        if inc.dead.is_some() {
+            out.count("incarnation:machine-dies-mid-run");
+        }
+    }
+    for g in wl.incs.iter().flat_map(|i| i.groups.iter()) {
         for (i, m) in g.iter().enumerate() {
             out.count(&format!("msg:{}:pos{}", m.kind(), i.min(4)));
         }
@@ -394,8 +465,9 @@ fn run_workload(wl: &Workload, out: &mut Out, source: &str) {
         }
     }
     out.count(&format!("writes:{}", nw.min(12)));
-    out.count(&format!("faults:{}", wl.faults.len()));
-    for (_, o) in &wl.faults {
+    let all_faults: Vec<&(usize, Outcome)> = wl.incs.iter().flat_map(|i| i.faults.iter()).collect();
+    out.count(&format!("faults:{}", all_faults.len().min(4)));
+    for (_, o) in all_faults.iter().map(|f| (f.0, &f.1)) {
         out.count(&format!("fault-kind:{}", match o { Outcome::Ok => "ok", Outcome::Fail => "fail", Outcome::Full => "full", Outcome::Torn(_) => "torn" }));
     }
     for c in &r.trace {
@@ -414,21 +486,27 @@ fn run_workload(wl: &Workload, out: &mut Out, source: &str) {
     for (_, a, _) in &acks {
         out.count(&format!("ack:{}", a));
     }
-    let canon = op_line(wl);
+    let canon = op_line(wl, &r.bases);
     out.case(&canon, nw >= 2 && creates >= 1);
     let replay = json!({
         "max_file_size": wl.max_size, "group_commit_max_entries": wl.max_entries,
-        "faults": wl.faults.iter().map(|(i, o)| format!("{}:{}", i, o.show())).collect::<Vec<_>>(),
-        "groups": wl.groups.iter().map(|g| g.iter().map(|m| match m {
-            Msg::Durable(w) => format!("write_durable id {} ts {} key w{} ({} payload bytes)", w.id, w.ts, w.id, w.data.len()),
-            Msg::Forget(w) => format!("write_fire_and_forget id {} ts {}", w.id, w.ts),
-            Msg::Tick => "sync_tick".to_string(),
-            Msg::Truncate(t) => format!("truncate({})", t),
-        }).collect::<Vec<_>>()).collect::<Vec<_>>(),
+        "incarnations": wl.incs.iter().enumerate().map(|(k, inc)| json!({
+            "first_call_index": r.bases.get(k),
+            "faults_at_call_index": inc.faults.iter().map(|(i, o)| format!("{}:{}", r.bases.get(k).cloned().unwrap_or(0) + i, o.show())).collect::<Vec<_>>(),
+            "machine_dies_from_call_index": inc.dead.map(|d| r.bases.get(k).cloned().unwrap_or(0) + d),
+            "bursts": inc.groups.iter().map(|g| g.iter().map(|m| match m {
+                Msg::Durable(w) => format!("write_durable id {} ts {} key w{} ({} payload bytes)", w.id, w.ts, w.id, w.data.len()),
+                Msg::Forget(w) => format!("write_fire_and_forget id {} ts {}", w.id, w.ts),
+                Msg::Tick => "sync_tick".to_string(),
+                Msg::Truncate(t) => format!("truncate({})", t),
+            }).collect::<Vec<_>>()).collect::<Vec<_>>(),
+            "ends_with": match inc.ending { Ending::Crash => "machine crash, then restart", Ending::Clean => "clean shutdown, then restart", Ending::End => "end of the history" },
+        })).collect::<Vec<_>>(),
         "acks": acks_s, "trace": r.trace, "recovered_at_each_crash_index": crash_s, "source": source,
     });
     out.sample(replay.clone());
 
+    check_create_over(out, &r.trace, &replay);
     // ORACLE: an Ok ack whose entry is missing from recovery of a crash image taken after the
     // caller saw the ack
     for (id, a, seen_at) in &acks {
@@ -472,12 +550,22 @@ fn run_workload(wl: &Workload, out: &mut Out, source: &str) {
     }
 }
 
-fn gen_workload(rng: &mut Rng, next_id: &mut u64) -> Workload {
+/// a `create` over a name that already exists truncates that file (oracle, independent of acks)
+fn check_create_over(out: &mut Out, trace: &[String], replay: &serde_json::Value) {
+    if let Some((i, c)) = trace.iter().enumerate().find(|(_, c)| c.starts_with('c') && c.ends_with(":over")) {
+        out.violation(
+            "C09:create-overwrites-existing-file",
+            &format!("I/O call {} ({}) created a WAL file under a name that already existed in the store: create() truncates it, destroying whatever an earlier incarnation had made durable there", i, c),
+            json!({"workload": replay, "call_index": i, "call": c}),
+        );
+    }
+}
+
+/// one incarnation: bursts of messages + faults at call indices relative to its first call
+fn gen_inc(rng: &mut Rng, next_id: &mut u64, vlen: usize, vary: bool) -> (Vec<Vec<Msg>>, Vec<(usize, Outcome)>, usize) {
     let ng = rng.range(1, 4) as usize;
     let mut groups: Vec<Vec<Msg>> = Vec::new();
-    let vlen = rng.range(1, 3) as usize;
-    let vary = rng.chance(1, 3); // entries of different sizes: rotation points move inside batches
-    // which non-write messages this workload mixes in (every public message of WalActorHandle)
+    // which non-write messages this incarnation mixes in (every public message of WalActorHandle)
     let with_ticks = rng.chance(1, 2);
     let with_forget = rng.chance(1, 3);
     let with_truncate = rng.chance(1, 4);
@@ -504,17 +592,6 @@ fn gen_workload(rng: &mut Rng, next_id: &mut u64) -> Workload {
         groups[0].insert(0, Msg::Durable(mk_write(*next_id, 1, vlen)));
     }
     let esz = 16 + groups.iter().flatten().find_map(|m| m.write()).unwrap().data.len();
-    // rotation thresholds: every entry its own file / header + k entries (+-1) / one file
-    let max_size = match rng.below(7) {
-        0 => 17,
-        1 => 16 + esz,
-        2 => 16 + esz + 1,
-        3 => 16 + 2 * esz,
-        4 => 16 + 2 * esz + 1,
-        5 => 16 + 3 * esz,
-        _ => 1 << 20,
-    };
-    let max_entries = *rng.pick(&[1usize, 2, 3, 8]);
     // faults among the I/O calls (an upper bound of the number of calls: 4 per write)
     let total: usize = groups.iter().map(|g| g.len()).sum::<usize>() * 4 + 2;
     let nf = match rng.below(10) {
@@ -538,7 +615,39 @@ fn gen_workload(rng: &mut Rng, next_id: &mut u64) -> Workload {
         faults.push((i, o));
     }
     faults.sort_by_key(|f| f.0);
-    Workload { max_size, max_entries, faults, groups }
+    (groups, faults, total)
+}
+
+fn gen_workload(rng: &mut Rng, next_id: &mut u64) -> Workload {
+    let vlen = rng.range(1, 3) as usize;
+    let vary = rng.chance(1, 3); // entries of different sizes: rotation points move inside batches
+    // 1..3 actor incarnations over one store, each ended by a clean shutdown or a machine crash
+    // (possibly with the machine dying at some call: from there on every I/O call fails)
+    let k = match rng.below(10) {
+        0..=4 => 1,
+        5..=8 => 2,
+        _ => 3,
+    };
+    let mut incs = Vec::new();
+    for n in 0..k {
+        let (groups, faults, total) = gen_inc(rng, next_id, vlen, vary);
+        let ending = if n + 1 == k { Ending::End } else if rng.chance(1, 2) { Ending::Crash } else { Ending::Clean };
+        let dead = if ending != Ending::Clean && rng.chance(1, 5) { Some(rng.below(total as u64) as usize) } else { None };
+        incs.push(Inc { faults, dead, groups, ending });
+    }
+    let esz = 16 + incs[0].groups.iter().flatten().find_map(|m| m.write()).unwrap().data.len();
+    // rotation thresholds: every entry its own file / header + k entries (+-1) / one file
+    let max_size = match rng.below(7) {
+        0 => 17,
+        1 => 16 + esz,
+        2 => 16 + esz + 1,
+        3 => 16 + 2 * esz,
+        4 => 16 + 2 * esz + 1,
+        5 => 16 + 3 * esz,
+        _ => 1 << 20,
+    };
+    let max_entries = *rng.pick(&[1usize, 2, 3, 8]);
+    Workload { max_size, max_entries, incs }
 }
 
 pub fn run(a: &Args) {
@@ -550,14 +659,14 @@ pub fn run(a: &Args) {
     // unconditional): one entry per file, one burst of 3 writers
     {
         let g: Vec<Msg> = (1..=3).map(|i| Msg::Durable(mk_write(i, i, 1))).collect();
-        let wl = Workload { max_size: 17, max_entries: 8, faults: vec![], groups: vec![g] };
+        let wl = Workload::single(17, 8, vec![], vec![g]);
         let before = out.oracle.len();
         run_workload(&wl, &mut out, "corpus:batch-straddles-rotation");
         out.count(if out.oracle.len() == before { "corpus:batch-straddles-rotation:pass" } else { "corpus:batch-straddles-rotation:FAIL" });
         // an append error in the middle of a batch: the earlier entry of the batch is acked Ok
         // although its file is never fsynced (calls: create, header, entry 1, entry 2 <- fails)
         let g: Vec<Msg> = (4..=5).map(|i| Msg::Durable(mk_write(i, i, 1))).collect();
-        let wl = Workload { max_size: 1 << 20, max_entries: 8, faults: vec![(3, Outcome::Fail)], groups: vec![g] };
+        let wl = Workload::single(1 << 20, 8, vec![(3, Outcome::Fail)], vec![g]);
         let before = out.oracle.len();
         run_workload(&wl, &mut out, "corpus:append-error-then-sync-ok");
         out.count(if out.oracle.len() == before { "corpus:append-error-then-sync-ok:pass" } else { "corpus:append-error-then-sync-ok:FAIL" });
@@ -566,7 +675,7 @@ pub fn run(a: &Args) {
         // C goes to the next file, flush -> A must not be acknowledged Ok unless it is recoverable
         for fault in [Outcome::Fail, Outcome::Full, Outcome::Torn(7)] {
             let g = vec![Msg::Durable(mk_write(6, 6, 1)), Msg::Durable(mk_write(7, 7, 1)), Msg::Tick, Msg::Durable(mk_write(8, 8, 1))];
-            let wl = Workload { max_size: 1 << 20, max_entries: 8, faults: vec![(3, fault)], groups: vec![g] };
+            let wl = Workload::single(1 << 20, 8, vec![(3, fault)], vec![g]);
             let before = out.oracle.len();
             run_workload(&wl, &mut out, "corpus:tick-between-append-fault-and-flush");
             out.count(if out.oracle.len() == before { "corpus:tick-between-append-fault-and-flush:pass" } else { "corpus:tick-between-append-fault-and-flush:FAIL" });
@@ -574,11 +683,33 @@ pub fn run(a: &Args) {
         // every other public message in the same position
         for m in [Msg::Truncate(0), Msg::Truncate(u64::MAX - 1), Msg::Forget(mk_write(9, 9, 1))] {
             let g = vec![Msg::Durable(mk_write(10, 10, 1)), Msg::Durable(mk_write(11, 11, 1)), m, Msg::Durable(mk_write(12, 12, 1))];
-            let wl = Workload { max_size: 1 << 20, max_entries: 8, faults: vec![(3, Outcome::Fail)], groups: vec![g] };
+            let wl = Workload::single(1 << 20, 8, vec![(3, Outcome::Fail)], vec![g]);
             run_workload(&wl, &mut out, "corpus:message-between-append-fault-and-flush");
         }
-        next_id = 12;
+        // seeded change "rotate reuses the highest sequence after a restart": incarnation 1 acknowledges
+        // ten writes and shuts down cleanly (or crashes), incarnation 2 over the same store acknowledges
+        // two more, crash -> all twelve must be recovered.  One big file, and 200-byte files.
+        for max_size in [1usize << 20, 200] {
+            for first_end in [Ending::Clean, Ending::Crash] {
+                let g1: Vec<Msg> = (13..=17).map(|i| Msg::Durable(mk_write(i, i - 12, 1))).collect();
+                let g2: Vec<Msg> = (18..=22).map(|i| Msg::Durable(mk_write(i, i - 12, 1))).collect();
+                let g3: Vec<Msg> = (23..=24).map(|i| Msg::Durable(mk_write(i, i - 12, 1))).collect();
+                let wl = Workload {
+                    max_size,
+                    max_entries: 8,
+                    incs: vec![
+                        Inc { faults: vec![], dead: None, groups: vec![g1, g2], ending: first_end },
+                        Inc { faults: vec![], dead: None, groups: vec![g3], ending: Ending::Crash },
+                    ],
+                };
+                let before = out.oracle.len();
+                run_workload(&wl, &mut out, "corpus:second-incarnation-over-the-store-of-the-first");
+                out.count(if out.oracle.len() == before { "corpus:second-incarnation:pass" } else { "corpus:second-incarnation:FAIL" });
+            }
+        }
+        next_id = 24;
     }
+
     for _ in 0..a.n {
         let wl = gen_workload(&mut rng, &mut next_id);
         run_workload(&wl, &mut out, "generated");
